@@ -1044,9 +1044,87 @@ class Analyzer:
             self._splicing.add(qualname)
             try:
                 self._splice_new_helpers(s)
+                self._read_namedtuples(s)
             finally:
                 self._splicing.discard(qualname)
         return s
+
+    # ---- a module-level ``T = namedtuple("T", [fields])`` is a tuple with named slots: T(a, b) == (a, b), x.field == x[k]
+    def _namedtuples(self, modname):
+        if not hasattr(self, "_nt_cache"):
+            self._nt_cache = {}
+        if modname not in self._nt_cache:
+            out = {}
+            for q, node in self.P.module_vars.items():
+                if q.rsplit(".", 1)[0] != modname or not isinstance(node, ast.Call):
+                    continue
+                fn = node.func
+                nm = fn.id if isinstance(fn, ast.Name) else fn.attr if isinstance(fn, ast.Attribute) else None
+                if nm != "namedtuple" or len(node.args) < 2:
+                    continue
+                f = node.args[1]
+                if isinstance(f, (ast.List, ast.Tuple)) and all(isinstance(e, ast.Constant) and isinstance(e.value, str) for e in f.elts):
+                    out[q] = [e.value for e in f.elts]
+                elif isinstance(f, ast.Constant) and isinstance(f.value, str):
+                    out[q] = f.value.replace(",", " ").split()
+            self._nt_cache[modname] = out
+        return self._nt_cache[modname]
+
+    def _read_namedtuples(self, s: Summary):
+        nts = self._namedtuples(s.func.module)
+        if not nts or s.func.qualname.startswith("<"):
+            return
+        field_index = {}
+        for q, fields in nts.items():
+            for k, f in enumerate(fields):
+                field_index.setdefault(f, set()).add(k)
+        unique = {f: next(iter(ks)) for f, ks in field_index.items() if len(ks) == 1}
+        # objects that hold such a tuple: module-level names assigned from a constructor call somewhere in the module
+        holders = set()
+        for fq, fn in self.P.functions.items():
+            if fn.module != s.func.module:
+                continue
+            for n in ast.walk(fn.node):
+                if isinstance(n, ast.Assign) and isinstance(n.value, ast.Call) and isinstance(n.value.func, ast.Name) and f"{fn.module}.{n.value.func.id}" in nts:
+                    for t in n.targets:
+                        if isinstance(t, ast.Name) and f"{fn.module}.{t.id}" in self.P.module_vars:
+                            holders.add(("glob", f"{fn.module}.{t.id}"))
+
+        def rw(x):
+            if not isinstance(x, tuple):
+                return x
+            x = tuple(rw(y) for y in x)
+            if head(x) == "call" and head(strip(x[1])) == "glob" and strip(x[1])[1] in nts and not any(head(a) == "star" for a in x[2]):
+                fields = nts[strip(x[1])[1]]
+                kw = dict(x[3])
+                vals = list(x[2]) + [kw[f] for f in fields[len(x[2]):] if f in kw]
+                if len(vals) == len(fields) and "**" not in kw:
+                    return ("tuple", tuple(vals))
+            if head(x) == "alloc" and head(x[2]) == "tuple":
+                return x[2]
+            if head(x) == "attr" and x[2] in unique and (strip(x[1]) in holders or head(strip(x[1])) == "tuple"):
+                return ("item", x[1], unique[x[2]])
+            return x
+
+        def rv(v):
+            if isinstance(v, tuple):
+                return rw(v)
+            if isinstance(v, list):
+                return [rv(y) for y in v]
+            return v
+        for k, ev in enumerate(s.events):
+            data = {kk: rv(v) for kk, v in ev.data.items()}
+            if ev.kind == "call" and head(strip(data.get("term"))) != "call":
+                data["term"] = ev.data["term"]        # a call event keeps its call term (the constructor call itself)
+            s.events[k] = Event(ev.kind, Ctx(tuple((rw(g), pol) for g, pol in ev.ctx.guards), ev.ctx.loops, ev.ctx.func, ev.ctx.tries), ev.node, data, ev.seq)
+        s.ret = rw(s.ret)
+        s.env = {(rw(k) if isinstance(k, tuple) else k): rv(v) for k, v in s.env.items()}
+        for lid in list(dict.keys(s.loops)):
+            lp = dict.__getitem__(s.loops, lid)
+            lp.iterable, lp.elem = rw(lp.iterable), rw(lp.elem) if lp.elem is not None else None
+            lp.init = {k: rv(v) for k, v in lp.init.items()}
+            lp.update = {k: rv(v) for k, v in lp.update.items()}
+            lp.ctx = Ctx(tuple((rw(g), pol) for g, pol in lp.ctx.guards), lp.ctx.loops, lp.ctx.func, lp.ctx.tries)
 
     # ---- helpers introduced after the rules were validated are read through (events, loops and return value spliced into the caller)
     def _baseline_functions(self):
